@@ -73,6 +73,7 @@ CONTRACTS[U + 'acq_mat'] = dict(
     requires=[],
     ensures=['rows(result) == rows(gs)', 'cols(result) == rows(gs)',
              'forall(a, 0, rows(gs), forall(b, 0, rows(gs), result[a][b] == AcqSum(gs[a], gs[b], cols(gs) // 2) % 2))'],
+    result_term='AcqMat(gs, rows(gs), cols(gs) // 2)',
     modifies=[], returns='int2 fresh',
     loops={0: dict(var='j1', invariant=['rows(mat) == L', 'cols(mat) == L',
                                         'forall(a, 0, j1, forall(b, 0, L, mat[a][b] == AcqSum(gs[a], gs[b], N)))',
@@ -1111,4 +1112,55 @@ LEMMAS['acqout_ext'] = dict(
               'y[2 * k] == y2[2 * k] and y[2 * k + 1] == y2[2 * k + 1]))'],
     ensures=['AcqOut(x, y, mask, K) == AcqOut(x2, y2, mask, K)'],
     induction='K',
+)
+
+# ------------------------------------------------------------------ C08: the entropy kernel returns the textbook rank formulas
+# mixed (L generators of an N-qubit state, L != N):  S(A) = |A| - (L - rank of the generators restricted to the complement of A)
+# pure  (L == N):  S(A) = 1/2 rank of the anticommutation matrix of the generators that act on both sides, restricted to A
+# (that these rank formulas ARE the von Neumann entropy of the reduced state is the mathematical bridge, cross-checked densely)
+_eM2 = 'Repeat2(mask)'
+_eIn = 'Cols(gs, %s, cols(gs))' % _eM2
+_eOut = 'Cols(gs, Not1(%s), cols(gs))' % _eM2
+_eCnt = 'MaskCnt(%s, cols(gs))' % _eM2
+_eCntC = 'MaskCnt(Not1(%s), cols(gs))' % _eM2
+_eAcross = 'And1(Nz(RowSums(%s, %s)), Nz(RowSums(%s, %s)))' % (_eIn, _eCnt, _eOut, _eCntC)
+_eLa = 'MaskCnt(%s, rows(gs))' % _eAcross
+_eGA = 'Cols(Rows(gs, %s, rows(gs)), %s, cols(gs))' % (_eAcross, _eM2)
+CONTRACTS[U + 'stabilizer_entropy'] = dict(
+    params=[('gs', 'int2'), ('mask', 'bool1')],
+    requires=['cols(gs) == 2 * len(mask)', 'bits2(gs)', 'rows(gs) <= cols(gs) // 2'],       # L = N - r generators
+    ensures=['implies(rows(gs) != cols(gs) // 2, result == RowSum(mask, len(mask)) - (rows(gs) - Z2Rank(%s, rows(gs), %s)))' % (_eOut, _eCntC),
+             'implies(rows(gs) == cols(gs) // 2, result == Z2Rank(AcqMat(%s, %s, %s // 2), %s, %s) // 2)' % (_eGA, _eLa, _eCnt, _eLa, _eLa)],
+    modifies=[], returns='int',
+)
+
+# ------------------------------------------------------------------ C16: a random Pauli map is a valid (block-diagonal) Clifford map
+LEMMAS['acq_local'] = dict(
+    doc='a string supported on one qubit has a symplectic form that only reads that qubit',
+    params=[('x', 'int1'), ('y', 'int1'), ('n', 'int'), ('k', 'int')],
+    requires=['forall(c, 0, 2 * n, implies(c != 2 * k and c != 2 * k + 1, x[c] == 0))'],
+    ensures=['AcqSum(x, y, n) == (qterm(x, y, k) if (0 <= k and k < n) else 0)'],
+    induction='n',
+)
+_rp_rows = ['forall(a, 0, 2 * i, forall(c, 0, 2 * N, implies(c != 2 * (a // 2) and c != 2 * (a // 2) + 1, gs[a][c] == 0)))',
+            'forall(a, 0, 2 * i, forall(b, 0, 2 * i, AcqSum(gs[a], gs[b], N) % 2 == b2i(b == partner(a))))']
+CONTRACTS[U + 'random_pauli'] = dict(
+    params=[('N', 'int')],
+    requires=['N >= 0'],
+    # whatever is drawn: every (X_i, Z_i) image pair sits on qubit i alone and anticommutes -- the canonical commutation relations
+    ensures=['rows(result) == 2 * N', 'cols(result) == 2 * N', 'bits2(result)', 'gram_map(result, N)',
+             'forall(a, 0, 2 * N, forall(c, 0, 2 * N, implies(c != 2 * (a // 2) and c != 2 * (a // 2) + 1, result[a][c] == 0)))'],
+    modifies=[], returns='int2 fresh',
+    loops={0: dict(var='i', invariant=['rows(gs) == 2 * N', 'cols(gs) == 2 * N', 'bits2(gs)'] + _rp_rows +
+                   ['forall(r_, 2 * i, 2 * N, forall(c, 0, 2 * N, gs[r_][c] == 0))'],
+                   locals={'g1': 'int1', 'g2': 'int1'},
+                   hints_end=[('assert', 'AcqSum(g1, g2, 0) == 0'),
+                              ('assert', 'qterm(gs[2 * i], gs[2 * i + 1], i) == g1[1] * g2[0] - g1[0] * g2[1]'),
+                              ('lemma', 'acq_local', ['gs[2 * i]', 'gs[2 * i + 1]', 'N', 'i']),
+                              ('lemma', 'acq_antisym', ['gs[2 * i]', 'gs[2 * i + 1]', 'N']),
+                              ('lemma', 'acq_antisym', ['gs[2 * i + 1]', 'gs[2 * i + 1]', 'N']),
+                              ('forall_lemma', [('a', '0', '2 * i')], 'acq_local', ['gs[2 * i]', 'gs[a]', 'N', 'i']),
+                              ('forall_lemma', [('a', '0', '2 * i')], 'acq_local', ['gs[2 * i + 1]', 'gs[a]', 'N', 'i']),
+                              ('forall_lemma', [('a', '0', '2 * i')], 'acq_antisym', ['gs[a]', 'gs[2 * i]', 'N']),
+                              ('forall_lemma', [('a', '0', '2 * i')], 'acq_antisym', ['gs[a]', 'gs[2 * i + 1]', 'N'])])},
 )
